@@ -229,6 +229,23 @@ type c19Conf struct {
 	Lazy   int  `json:"lazy"`
 	Subsec bool `json:"subsec"`
 	Rot    int  `json:"rot"`
+	// Size: configured cache size of the original AND of the reloaded instance (0: c19Size).
+	// Sizes below 1024 are legal: the store's documented minimum of 1024 entries applies.
+	Size int `json:"size,omitempty"`
+}
+
+// c19CurSize is the configured size used by every cache the scenarios build
+// (set from the configuration under test; sequential code).
+var c19CurSize = c19Size
+
+func (cf c19Conf) use() func() {
+	old := c19CurSize
+	if cf.Size != 0 {
+		c19CurSize = cf.Size
+	} else {
+		c19CurSize = c19Size
+	}
+	return func() { c19CurSize = old }
 }
 
 func (cf c19Conf) tpl(i int) c19Tpl { return c19Tpls[(i+cf.Rot)%len(c19Tpls)] }
@@ -264,7 +281,16 @@ func c19Populate(cf c19Conf, mainID int, args *Args) (*Cache, *c19Up, int) {
 	u.answer = func(q *dns.Msg) *dns.Msg {
 		var i int
 		fmt.Sscanf(q.Question[0].Name, "e%03d.", &i)
-		return c19Build(cf.tpl(i), q, i)
+		m := c19Build(cf.tpl(i), q, i)
+		if cf.N == 300 && cf.Rot == 0 && !cf.Subsec && i == 290 && len(m.Answer) > 0 {
+			// one legal giant: 3000 more address records under the same owner name - about 48 KiB
+			// with name compression (it fits a TCP frame), about 180 KiB without (as the dump keeps it)
+			ttl := m.Answer[0].Header().Ttl
+			for k := 0; k < 3000; k++ {
+				m.Answer = append(m.Answer, &dns.A{Hdr: dns.RR_Header{Name: q.Question[0].Name, Rrtype: dns.TypeA, Class: dns.ClassINET, Ttl: ttl}, A: net.IPv4(172, 16, byte(k>>8), byte(k)).To4()})
+			}
+		}
+		return m
 	}
 	order := make([]int, cf.N)
 	for i := range order {
@@ -534,6 +560,7 @@ func c19SameServed(a, b *dns.Msg, tol bool) string {
 }
 
 func c19RunRoundtrip(in c19RtIn, verbose bool) c19Verdict {
+	defer in.Conf.use()()
 	cf := in.Conf
 	v := c19Verdict{Outcomes: map[string]int64{}}
 	delta := time.Duration(in.DeltaNs)
@@ -547,7 +574,7 @@ func c19RunRoundtrip(in c19RtIn, verbose bool) c19Verdict {
 	}
 	x := vs.Run1(c19Cfg, func() {
 		id, _ := vs.CurThread()
-		args := func() *Args { return &Args{Size: c19Size, LazyCacheTTL: cf.Lazy} }
+		args := func() *Args { return &Args{Size: c19CurSize, LazyCacheTTL: cf.Lazy} }
 		a, u, ops := c19Populate(cf, id, args())
 		defer a.Close()
 		v.Ops += int64(ops)
@@ -705,7 +732,7 @@ func c19LoadAtPeak(at time.Duration, lazy int, data []byte, sample bool) c19Load
 	cfg.Horizon = at + time.Hour // a load that is still not back an hour later hangs (the cache's tickers would keep the clock running for ever)
 	x := vs.Run1(cfg, func() {
 		vs.Advance(at)
-		c := NewCache(&Args{Size: c19Size, LazyCacheTTL: lazy}, Opts{})
+		c := NewCache(&Args{Size: c19CurSize, LazyCacheTTL: lazy}, Opts{})
 		c19Yield() // the plugin's background goroutines (sweeper, dump loop) start now
 		var m0, m1 runtime.MemStats
 		runtime.ReadMemStats(&m0)
@@ -804,6 +831,7 @@ func c19B64(b []byte) string {
 
 // c19CheckTrunc: a proper prefix must be refused and may only add entries of the intact dump.
 func c19CheckTrunc(cf c19Conf, dump []byte, k int, intact map[string]c19Snap, starts []int, total int) (outcome, sig, desc string, infra string) {
+	defer cf.use()()
 	r := c19LoadAt(c19DumpAt, cf.Lazy, dump[:k])
 	if r.Infra != "" {
 		return "", "", "", r.Infra
@@ -877,9 +905,10 @@ func c19CheckFile(family, region string, at time.Duration, lazy int, data []byte
 
 // c19MakeDump builds the original cache of a configuration and returns its dump.
 func c19MakeDump(cf c19Conf) (dump []byte, ops int, err string) {
+	defer cf.use()()
 	x := vs.Run1(c19Cfg, func() {
 		id, _ := vs.CurThread()
-		a, _, n := c19Populate(cf, id, &Args{Size: c19Size, LazyCacheTTL: cf.Lazy})
+		a, _, n := c19Populate(cf, id, &Args{Size: c19CurSize, LazyCacheTTL: cf.Lazy})
 		ops = n + 1
 		code, d := c19Get(a)
 		if code != 200 {
@@ -1090,8 +1119,8 @@ func c19RunRepeated(dir string, lazy int, res *vr.Result, viol func(sig, desc st
 	x := vs.Run1(c19Cfg, func() {
 		id, _ := vs.CurThread()
 		path := filepath.Join(dir, fmt.Sprintf("repeated_%d.bin", lazy))
-		a, _, _ := c19Populate(cf, id, &Args{Size: c19Size, LazyCacheTTL: lazy, DumpFile: path, DumpInterval: 3600})
-		b, _, _ := c19Populate(cf, id, &Args{Size: c19Size, LazyCacheTTL: lazy})
+		a, _, _ := c19Populate(cf, id, &Args{Size: c19CurSize, LazyCacheTTL: lazy, DumpFile: path, DumpInterval: 3600})
+		b, _, _ := c19Populate(cf, id, &Args{Size: c19CurSize, LazyCacheTTL: lazy})
 		for k, c := range []*Cache{a, a, b, a} {
 			code, d := c19Get(c)
 			if code != 200 {
@@ -1153,7 +1182,7 @@ func c19RunDumpFile(dir string, lazy int, res *vr.Result, viol func(sig, desc st
 	var dumpedAt time.Duration
 	x := vs.Run1(c19Cfg, func() {
 		id, _ := vs.CurThread()
-		a := NewCache(&Args{Size: c19Size, LazyCacheTTL: lazy, DumpFile: path, DumpInterval: 60}, Opts{})
+		a := NewCache(&Args{Size: c19CurSize, LazyCacheTTL: lazy, DumpFile: path, DumpInterval: 60}, Opts{})
 		c19Yield() // the plugin's background goroutines (sweeper, dump loop) start now
 		defer func() {
 			a.args.DumpFile = "" // no dump on close: the crash-point enumeration below owns the file
@@ -1189,7 +1218,7 @@ func c19RunDumpFile(dir string, lazy int, res *vr.Result, viol func(sig, desc st
 		snapA = c19Snapshot(a)
 		// restart: a second instance with the same dump_file must serve what the first one serves
 		u.answer, u.always = nil, false
-		bb := NewCache(&Args{Size: c19Size, LazyCacheTTL: lazy}, Opts{})
+		bb := NewCache(&Args{Size: c19CurSize, LazyCacheTTL: lazy}, Opts{})
 		c19Yield() // the plugin's background goroutines (sweeper, dump loop) start now
 		defer bb.Close()
 		bb.args.DumpFile = path
@@ -1247,7 +1276,7 @@ func c19RunDumpFile(dir string, lazy int, res *vr.Result, viol func(sig, desc st
 		var got map[string]c19Snap
 		x := vs.Run1(c19Cfg, func() {
 			vs.Advance(dumpedAt)
-			c := NewCache(&Args{Size: c19Size, LazyCacheTTL: lazy}, Opts{})
+			c := NewCache(&Args{Size: c19CurSize, LazyCacheTTL: lazy}, Opts{})
 			c19Yield() // the plugin's background goroutines (sweeper, dump loop) start now
 			c.args.DumpFile = p2
 			lerr = c.loadDump()
@@ -1525,6 +1554,10 @@ func TestVerifC19(t *testing.T) {
 				for _, r := range rots {
 					confs = append(confs, c19Conf{N: n, Lazy: lazy, Subsec: sub, Rot: r})
 				}
+				if !sub && (n == 129 || n == 300) {
+					// configured size below the number of entries held
+					confs = append(confs, c19Conf{N: n, Lazy: lazy, Rot: 0, Size: 128}, c19Conf{N: n, Lazy: lazy, Rot: 0, Size: 256})
+				}
 			}
 		}
 	}
@@ -1620,6 +1653,10 @@ func TestVerifC19(t *testing.T) {
 	for _, n := range ns {
 		for _, lazy := range lazies {
 			cf := c19Conf{N: n, Lazy: lazy}
+			if lazy == lazies[0] && (n == 129 || n == 300) {
+				cf.Size = 128 // configured size below the number of entries (the store keeps its minimum of 1024)
+			}
+			cf.use() // sets the size for this configuration (every iteration sets it anew)
 			for _, job := range []string{"trunc", "flip"} {
 				dunit++
 				if !e.Mine(dunit) || expired() {
@@ -1710,6 +1747,7 @@ func TestVerifC19(t *testing.T) {
 			}
 		}
 	}
+	c19CurSize = c19Size
 	fmt.Printf("phase trunc/flip done at %.1fs\n", time.Since(start).Seconds())
 	res.Bounds["dump_units"] = dunit
 	if stop {
